@@ -156,7 +156,7 @@ func genProfile(g *vlib.G) {
 	})
 	// real score functions on small graphs
 	for _, s := range []graphSpace{{n: 3}, {n: 4}, {n: 3, weighted: true, stride: 2}, {n: 3, directed: true, stride: 3},
-		{n: 4, weighted: true, stride: vlib.Pick(g, 31, 5), offset: 4}, {n: 5, stride: vlib.Pick(g, 41, 7), offset: 6}} {
+		{n: 4, weighted: true, stride: vlib.Pick(g, 31, 1), offset: vlib.Pick(g, 4, 0), rotate: true}, {n: 5, stride: vlib.Pick(g, 41, 1), offset: vlib.Pick(g, 6, 0), rotate: true}} {
 		forGraphs(s, false, func(key string, mk func() *built) {
 			g.Case("modular "+key, func(t *vlib.T) { checkProfileModular(t, mk()) })
 		})
